@@ -274,6 +274,19 @@ theorem pack_ok_inv (key : Option Key) (dI aux : Bool) (c : List (Name × Child 
         · subst he; exact packEntry_ok_inv W key dI aux (name, ch) b h1
         · exact ih bs h2 e he
 
+/-- a plain dict has no cached entries: packing with `has_aux = False` does not look at `aux` -/
+def clearAux (e : Name × Child J) : Name × Child J := (e.1, ⟨e.2.node, e.2.metadata, none⟩)
+
+theorem pack_plain_ignores_aux (key : Option Key) (dI : Bool) (c : List (Name × Child J)) :
+    pack W key dI false c = pack W key dI false (c.map clearAux) := by
+  induction c with
+  | nil => rfl
+  | cons e rest ih =>
+    obtain ⟨name, ch⟩ := e
+    have h1 : packEntry W key dI false name ch = packEntry W key dI false name ⟨ch.node, ch.metadata, none⟩ := by
+      simp [packEntry, cachedEntry, entryBytes]
+    simp only [pack, List.map_cons, clearAux, h1, ih]
+
 /-! ### unpack -/
 
 /-- what the unpack loop makes of the entry of one packed child -/
